@@ -1,6 +1,6 @@
 """C05 No input or option can make a decoder, compiler or encoder misbehave - per-site safety obligations."""
 import re
-from .. import frontend as F, ast as A, cfg as C, util as U, guards as G
+from .. import frontend as F, ast as A, cfg as C, util as U, guards as G, peval as P
 
 EXPLANATION = ('Per-site safety obligations over all of include/: (R05.1) every snprintf result used as a length is bounded by the buffer '
                'size, statically (format and constant precision) or by a dominating upper-bound test; (R05.3) std::basic_regex '
@@ -820,26 +820,128 @@ def r05_12(chk, tier, units=('core', 'csv', 'jsonpath', 'jmespath', 'patch', 'to
         for fn in facts.functions:
             if fn.get('body') is None or not fn['file'].startswith('include/'): continue
             for c in A.calls_in(fn['body'], no_lambda=True):
-                if A.callee_name(c) not in ('memcmp', 'memcpy', 'memmove') or len(c.get('args') or []) < 3: continue
+                if A.callee_name(c) not in ('memcmp', 'memcpy', 'memmove', 'memset') or len(c.get('args') or []) < 3: continue
                 args = c['args']
+                is_set = A.callee_name(c) == 'memset'
                 def pt(a):
                     s_ = A.strip(a, casts=True)
                     return fn['_types'][s_['t'] - 1] if s_ is not None and s_.get('t') else '?'
-                ta, tb = pt(args[0]), pt(args[1])
+                ta, tb = pt(args[0]), (pt(args[0]) if is_set else pt(args[1]))
                 key = (fn['file'], c.get('l'), bytelike(ta) and bytelike(tb))
                 if key in seen: continue
                 seen.add(key); n += 1
                 site = '%s:%s %s(%s, %s)' % (fn['file'], fn['n'], A.callee_name(c), ta[:30], tb[:30])
                 if bytelike(ta) and bytelike(tb):
                     chk.ok('R05.12', site, None, nontrivial=False); continue
-                kinds = [y.get('k') for y in A.walk(args[2])]
-                sized = any(k in ('UnaryExprOrTypeTraitExpr', 'CXXUnresolvedConstructExpr', 'SizeOfPackExpr') for k in kinds) or A.strip(args[2], casts=True).get('k') == 'IntegerLiteral'
+                # the byte count is `count * sizeof(T)` (either order), a bare sizeof, or a literal: a sizeof term inside a sum or difference
+                # (`a - b*sizeof(T)`) mixes elements and bytes
+                top = A.strip(args[2], casts=True)
+                while top is not None and top.get('k') in ('CXXUnresolvedConstructExpr', 'CXXFunctionalCastExpr', 'CXXConstructExpr') and len(top.get('args') or top.get('c') or [top.get('sub')]) == 1:
+                    top = A.strip((top.get('args') or top.get('c') or [top.get('sub')])[0], casts=True)
+                def has_sizeof(e): return e is not None and any(y.get('k') in ('UnaryExprOrTypeTraitExpr', 'SizeOfPackExpr') for y in A.walk(e))
+                sized = top is not None and (top.get('k') in ('IntegerLiteral', 'UnaryExprOrTypeTraitExpr', 'SizeOfPackExpr') or
+                                             (top.get('k') == 'BinaryOperator' and top.get('op') == '*' and (has_sizeof(top.get('lhs')) or has_sizeof(top.get('rhs')))))
+                if not sized and top is not None and top.get('k') == 'CXXUnresolvedConstructExpr' and not A.children(top): sized = True   # opaque in the template pattern; the instantiations are checked
                 if sized: chk.ok('R05.12', site, {'line': c.get('l'), 'size': A.text(args[2])[:50]})
                 else:
                     chk.analysed(fn)
                     chk.fail('R05.12', site, fn['file'], c.get('l'), '%s: %s on `%s` / `%s` with size `%s`, which counts elements: for a character type wider than one byte only '
                              'part of the range is compared/copied' % (fn['n'], A.callee_name(c), ta[:40], tb[:40], A.text(args[2])[:40]), None, fn['q'])
     chk.require(n >= 40, 'R05.12: only %d mem* calls found' % n)
+
+# A state of a compiler loop whose no-progress path cannot be taken, with the reason (confirmed by reading and by probing)
+PROGRESS_EXEMPT = {
+    ('jsonpath_parser.hpp', 'one_or_more_arguments'):
+        'the state is uncovered only by the `argument` state popping itself, which it does on `,` and `)` alone (anything else is '
+        'expected_comma_or_rparen); white space, `,` and `)` are all handled here',
+}
+
+def r05_14(chk, tier):
+    """The expression compilers terminate: every turn of the state loop changes something."""
+    from .. import cfg as C
+    chk.rule('R05.14', 'compiler progress: in the state loops of the JMESPath and JSONPath compilers every path through one iteration advances the '
+                       'input cursor, pushes/pops/replaces the top of the state stack, or leaves the function (return / throw); a `break` '
+                       'reached with none of these (`default: break;`, `case \'*\': ... break;`) repeats the same state on the same character '
+                       'for ever', floor=2)
+    n = 0
+    for unit, hdr in (('jmespath', 'jmespath.hpp'), ('jsonpath', 'jsonpath_parser.hpp')):
+        facts = F.load([unit], tier)
+        if unit not in chk.units: chk.units.append(unit)
+        best = None
+        for f in facts.functions:
+            if f['n'] != 'compile' or not f['file'].endswith(hdr) or f.get('body') is None or f.get('dep'): continue
+            for x in A.walk_no_lambda(f['body']):
+                if x.get('k') == 'WhileStmt':
+                    sz = sum(1 for _ in A.walk(x))
+                    if best is None or sz > best[2]: best = (f, x, sz)
+        chk.require(best is not None and best[2] > 500, 'R05.14: state loop of the %s compiler not found' % unit)
+        fn, loop, _ = best
+        chk.analysed(fn)
+        # the cursor: the pointer member compared in the loop condition
+        cur = set(y.get('n') for y in A.walk(loop.get('cond')) if y.get('k') == 'MemberExpr' and fn['_types'][y['t'] - 1].rstrip().endswith('*') and y.get('lv'))
+        cur = set(c for c in cur if not c.startswith('input_end') and not c.startswith('end'))
+        chk.require(cur, 'R05.14: %s: cursor member of the loop condition not recognised' % unit)
+        g = C.CFG(loop['body'])
+        prog = []
+        for nd in g.rpo:
+            if nd.kind == 'return': prog.append(nd); continue
+            if nd.kind not in ('stmt', 'cond') or not isinstance(nd.ast, dict): continue
+            p_ = any(s2 is g.exit_throw for s2 in nd.succ)
+            for y in A.walk_no_lambda(nd.ast):
+                k = y.get('k')
+                if k == 'UnaryOperator' and y.get('op') in ('++', '--') and A.ref_name(y.get('sub')) in cur: p_ = True
+                if k in ('BinaryOperator', 'CompoundAssignOperator') and y.get('op', '').endswith('=') and y.get('op') not in ('==', '!=', '<=', '>='):
+                    l = A.strip(y.get('lhs'), casts=True)
+                    if A.ref_name(l) in cur: p_ = True
+                    if l is not None and 'state_stack' in A.text(l): p_ = True
+                    if A.ref_name(l) in ('done', 'done_'): p_ = True
+                if k in A.CALLS:
+                    nm = A.callee_name(y)
+                    if nm.startswith(('advance', 'skip')): p_ = True
+                    if nm in ('push_back', 'pop_back', 'emplace_back', 'clear') and 'state_stack' in A.text(y.get('obj')): p_ = True
+                    if k == 'CXXOperatorCallExpr' and y.get('oop') == '=' and y.get('args') and 'state_stack' in A.text(y['args'][0]): p_ = True
+            if p_: prog.append(nd)
+        seen = g.reachable_from(g.entry, avoid=prog)
+        leaks = sorted(set(pn.line for pn in g.exit_return.pred if pn.id in seen and pn.kind != 'return' and pn.line))
+        # an edge out of the state switch that no case takes is the missing-handler form: report the states without a case
+        sw = next((x for x in A.walk_no_lambda(loop['body']) if x.get('k') == 'SwitchStmt'), None)
+        missing = []
+        if sw is not None:
+            labels = set(lo for lbls, st in P.PEval.switch_items(sw.get('body')) for lo, hi in lbls if lo != 'default')
+            has_default = any(lo == 'default' for lbls, st in P.PEval.switch_items(sw.get('body')) for lo, hi in lbls)
+            en = next((e for e in facts.enums if e['q'].endswith('::expr_state') or e['q'].endswith('expr_state')), None)
+            if en is not None and not has_default: missing = [k for k, v in en['values'] if v not in labels]
+        n += 1
+        site = U.site(fn, 'state loop of the %s compiler' % unit)
+        # which state a line belongs to (spans of the case groups of the state switch)
+        spans = []
+        if sw is not None:
+            en_all = next((e for e in facts.enums if e['q'].endswith('expr_state') or e['q'].endswith('path_state')), None)
+            names = dict((v, k) for k, v in en_all['values']) if en_all is not None else {}
+            cur_lab = None; lo_l = None
+            for lbls, st in P.PEval.switch_items(sw.get('body')):
+                if lbls: cur_lab = [names.get(lo, str(lo)) for lo, hi in lbls if lo != 'default'] or ['default']
+                if st is None or cur_lab is None: continue
+                ls = [y.get('l') for y in A.walk(st) if y.get('l')]
+                if ls: spans.append((min(ls), max(ls), cur_lab[0]))
+        def state_of(line):
+            for a, b, nm in spans:
+                if a <= line <= b: return nm
+            return None
+        real = [l for l in leaks if l != loop['body'].get('l') and l != sw.get('l')] if sw is not None else leaks
+        exempted = [l for l in real if (hdr, state_of(l)) in PROGRESS_EXEMPT]
+        for l in exempted: chk.note('R05.14: %s state %s exempt: %s' % (hdr, state_of(l), PROGRESS_EXEMPT[(hdr, state_of(l))]))
+        real = [l for l in real if l not in exempted]
+        if not real and not missing: chk.ok('R05.14', site, {'progress_statements': len(prog)})
+        else:
+            for l in real[:6]:
+                chk.fail('R05.14', U.site(fn, 'no progress in state %s' % (state_of(l) or l)), fn['file'], l, '%s compile(): the iteration ending at line %s neither consumes input, changes the state stack nor returns: '
+                         'the loop repeats with the same state and the same character' % (unit, l), None, fn['q'])
+            for m in missing[:6]:
+                chk.fail('R05.14', U.site(fn, 'state %s has no case' % m), fn['file'], sw.get('l'), '%s compile(): the state switch has no case for %s and no default: once that state is on '
+                         'top of the stack the loop spins' % (unit, m), None, fn['q'])
+            if not real and not missing: chk.ok('R05.14', site, None)
+    chk.require(n >= 2, 'R05.14: compiler loops not found')
 
 def run(chk, tier, only_rule=None):
     chk.explanation = EXPLANATION
@@ -860,6 +962,7 @@ def run(chk, tier, only_rule=None):
     c04.r04_5(chk, facts)
     c04.r04_6(chk, facts)
     r05_12(chk, tier)
+    r05_14(chk, tier)
     from . import c15
     for u_ in ('core', 'csv', 'jsonpath', 'jmespath', 'toon'):
         c15.r15_8(chk, F.load([u_], tier), rid='R05.13', floor=1)
